@@ -368,10 +368,17 @@ class ExcelCompiler:
                 filename += '.' + pickle_extension
 
             # (a pickle older than the text file which was there is from
-            #  before a save of the text file only)
+            #  before a save of the text file only, and it can stem from a
+            #  newer text file of the other kind)
+            other_texts = (
+                f'{filename[:-len(pickle_extension) - 1]}.{ext}'
+                for ext in self.save_file_extensions if ext[0] != 'p')
             if text_changed or not os.path.exists(filename) or (
-                    text_time is not None and
-                    os.path.getmtime(filename) < text_time):
+                    text_time is not None and (
+                        os.path.getmtime(filename) < text_time or any(
+                            os.path.exists(other) and
+                            os.path.getmtime(other) > text_time
+                            for other in other_texts if other != text_name))):
                 excel_compiler = self._from_text(text_name, is_json=is_json)
                 if non_pickle_extension not in file_types:
                     os.unlink(text_name)
